@@ -388,7 +388,15 @@ def cut_loop(text, toks, L, fname, spec, uid):
         o.append(begin)
         o.append(body)
         o.append('%s: ;' % lab_c)
-        if incr.strip():
+        if spec.get('incr_as'):
+            # the increment leaves the variable one step outside its object on the last round (`for (s = end; s >= str; s--)`: ISO C
+            # undefined, flat-memory semantics with gcc).  The unit states an equivalent well-defined form: `exit_when` is tested
+            # BEFORE the increment and leaves the loop; the loop variable must be dead after the loop (stated in the unit's assumptions).
+            if re.sub(r'\s+', '', incr) != re.sub(r'\s+', '', spec['incr_as']['incr']) or re.sub(r'\s+', '', cond) != re.sub(r'\s+', '', spec['incr_as']['cond']):
+                raise WeaveError('%s: incr_as does not match the loop header (%r ; %r)' % (tag, cond, incr))
+            o.append('if (%s) goto %s;' % (spec['incr_as']['exit_when'], lab_x))
+            o.append(incr + ';')
+        elif incr.strip():
             o.append(incr + ';')
         o.append(end)
         o.append(' '.join(back))
@@ -455,7 +463,11 @@ def weave(text, spec):
             L = cur[ordn]
             L.ordinal = ordn
             uid = '%s_%d' % (re.sub(r'\W', '_', fname), ordn)
-            new = cut_loop(text, toks, L, fname, ls, uid)
+            if ls == 'unreachable':
+                # the unit's precondition excludes this loop: it becomes an assertion that it is never reached (sound: reaching it fails)
+                new = '{ __CPROVER_assert (0, "%s.loop%d: declared unreachable in this unit"); __CPROVER_assume (0); }' % (fname, ordn)
+            else:
+                new = cut_loop(text, toks, L, fname, ls, uid)
             a = toks[L.kw][2]
             b = toks[L.end - 1][3]
             text = text[:a] + new + text[b:]
